@@ -202,6 +202,7 @@ class TraceRecorder(H.Recorder):
                             "P": None if state._last_prob is None else [[ld_frac(x) for x in row] for row in state._last_prob],
                             "live": [t.path_number if t != "" else None for t in state._trajs]}
             rec._in_sort, rec._sort_count = True, 0
+            rec.low.append(("sort_begins",))
             try:
                 return o_sort()
             finally:
@@ -241,7 +242,7 @@ class TraceRecorder(H.Recorder):
                     "status": md_items["status"], "rows": rows, "pin": md_items.get("pin")}
             rec.pre_sort = None
             out = o_treat(md_items)
-            op = {"kind": "treat", "res": view, "before": before, "pre_sort": rec.pre_sort,
+            op = {"kind": "treat", "res": view, "before": before, "pre_sort": rec.pre_sort, "low": list(rec.low),
                   "sort_swaps": rec.sort_iters[-1] if rec.sort_iters else 0, "after": rec.snapshot()}
             rec.ops.append(op)
             return out
